@@ -988,6 +988,50 @@ Definition exec_micro (e : exec) (me : nat) (m : micro) : mres :=
           end
       end
 
+  | MLazyGetY k =>
+      (* Lazy::get of a static whose initialiser contains a scheduling point (yield_now): try_get; if the
+         static is not registered, run the initialiser -- outside the execution lock, so other threads may
+         run it too -- and look again afterwards: the first thread to get there wins *)
+      match e_lazy e with
+      | None => MFail e PanicLazyShutdown
+      | Some lz =>
+          match find (fun x => Nat.eqb (fst x) k) lz with
+          | Some _ => MOk (push_cont e me [MLazyGet k])
+          | None =>
+              let e := ex_set_log e (LInitLazy k :: e_log e) in
+              let ci := length (e_objects e) in
+              let e := ex_set_objects e (e_objects e ++ [OCell (cell_new (caus_of e me))]) in
+              let e := causality_inc e me in
+              match get_cell e ci with
+              | None => MFail e (PanicModel 25)
+              | Some s =>
+                  match cell_track_write s (caus_of e me) with
+                  | inr p => MFail e p
+                  | inl s1 =>
+                      match cell_track_write s1 (caus_of e me) with
+                      | inr p => MFail e p
+                      | inl s2 =>
+                          MOk (push_cont (upd_object e ci (fun _ => OCell s2)) me [MYield; MLazyFinishY k ci])
+                      end
+                  end
+              end
+          end
+      end
+
+  | MLazyFinishY k ci =>
+      match e_lazy e with
+      | None => MFail (ex_set_log e (LDropLazy k :: e_log e)) PanicLazyShutdown   (* the value built by this thread is dropped by the unwinding *)
+      | Some lz =>
+          match find (fun x => Nat.eqb (fst x) k) lz with
+          | Some _ =>
+              (* another thread won: this thread's value is dropped, the winner's is returned *)
+              MOk (push_cont (ex_set_log e (LDropLazy k :: e_log e)) me [MLazyGet k])
+          | None =>
+              let sy := sync_store vv_new (caus_of e me) (rel_of e me) AcqRel in
+              MOk (push_cont (ex_set_lazy e (Some (lz ++ [(k, (ci, sy))]))) me [MLazyGet k])
+          end
+      end
+
   | MLazyDrop =>
       (* main thread: lazy_statics.drop(); the values are destroyed outside the execution *)
       match e_lazy e with
